@@ -11,15 +11,16 @@ RECURSIVE Keep(_, _, _, _)
 Keep(t, e, drop, i) == IF i > Len(t) THEN <<>>
                        ELSE (IF e[i] \in drop THEN <<>> ELSE <<t[i]>>) \o Keep(t, e, drop, i + 1)
 
+IsWs(c) == c \in {32, 9, 160, 12288}      \* space, tab, no-break space, ideographic space
 RECURSIVE StripL(_)
-StripL(s) == IF s # <<>> /\ Head(s) = SP THEN StripL(Tail(s)) ELSE s
+StripL(s) == IF s # <<>> /\ IsWs(Head(s)) THEN StripL(Tail(s)) ELSE s
 RECURSIVE StripR(_)
-StripR(s) == IF s # <<>> /\ s[Len(s)] = SP THEN StripR(SubSeq(s, 1, Len(s) - 1)) ELSE s
+StripR(s) == IF s # <<>> /\ IsWs(s[Len(s)]) THEN StripR(SubSeq(s, 1, Len(s) - 1)) ELSE s
 Strip(s) == StripR(StripL(s))
-NoSpace(s) == SelectSeq(s, LAMBDA c : c # SP /\ c # 9)
+NoSpace(s) == SelectSeq(s, LAMBDA c : ~IsWs(c))
 
 \* ---- tokenisation (edits.rs::tokenize): regex matches are tokens, the rest single characters ----
-IsWord(c) == c \in (48..57) \cup (65..90) \cup (97..122) \cup {95} \/ c >= 170   \* non-ASCII characters used are letters
+IsWord(c) == c \in (48..57) \cup (65..90) \cup (97..122) \cup {95} \/ (c >= 170 /\ ~IsWs(c))   \* the other non-ASCII characters used are letters
 InTok(re, c) == CASE re = "w" -> IsWord(c) [] re = "S" -> c # SP /\ c # 9 [] OTHER -> FALSE
 RECURSIVE Tok(_, _, _, _)
 \* cur = the regex match being accumulated
